@@ -119,7 +119,7 @@ func ruleSaveStores(c *core.Ctx) {
 	const rule = "C14.register"
 	save := c.Func("bus", "objectImpl", "saveProperty")
 	get := c.Func("bus", "objectImpl", "Property")
-	props := c.Field("bus", "objectImpl", "properties")
+	props := fld(c, "bus", "objectImpl", "properties")
 	if save == nil || get == nil || props == nil {
 		c.Undecided(rule, "bus.objectImpl.saveProperty", token.NoPos, "anchor not found")
 		return
